@@ -581,7 +581,53 @@ def _borrowed(modname, fname):
 # "answered with the handler's result for exactly those params, or -32602": the params decoders (C16); "the standard error of
 # its failure class" and "exactly one well-formed response object (jsonrpc, id, exactly one of result/error)": the code
 # tables and the response serialiser (C15)
-BORROWED = [_borrowed("c16", n) for n in ("r1_only_invalid_params", "r2_poison_on_error", "r3_exhaustion_table", "r4_absent_params", "rown_into_owned", "rnext_reads_T", "rone_is_one_array_parse")] + [_borrowed("c15", n) for n in ("r1_code_tables", "r2_serializer")]
+BORROWED = [_borrowed("c16", n) for n in ("r1_only_invalid_params", "r2_poison_on_error", "r3_exhaustion_table", "r4_absent_params", "rown_into_owned", "rnext_reads_T", "rone_is_one_array_parse")] + [_borrowed("c15", n) for n in ("r1_code_tables", "r2_serializer")] + [_borrowed("c04", "r10_lossy_sends_are_the_api_only")]
+
+
+def r14_every_data_message_reaches_the_task(ctx):
+    """every data message the WebSocket receives is handed to the per-message task - whatever its content (empty, all
+    whitespace, not JSON: those are answered -32700 there): in try_recv the arm that binds a received `Incoming::Data(d)`
+    returns `Receive::Ok(d, ..)` on every path, without looking at `d` and without going round the receive loop again; and
+    the stream in front of it forwards every soketto Data frame as Incoming::Data."""
+    F, R = ctx.F, ctx.R
+    tr = ctx.tracer(follow_callers=False, follow_fields=False, inline_calls=False)
+    b = F.one(r"^jsonrpsee_server::transport::ws::try_recv::\{closure#0\}$")
+    R.fn(b)
+    binds = []
+    for bi, blk in enumerate(b.blocks):
+        if blk.get("cleanup") or bi not in b.reachable:
+            continue
+        for st in blk["st"]:
+            if st["s"] == "assign" and st["rv"]["k"] == "use":
+                q = op_place(st["rv"]["op"])
+                if q is None:
+                    continue
+                ds = [e for e in q.get("p", []) if isinstance(e, dict) and "d" in e]
+                if ds and ds[-1]["d"] == "Data" and not st["pl"].get("p"):
+                    binds.append((bi, st["pl"]["l"]))
+    R.floor("C01.R14", len(binds), 1, "bindings of a received Incoming::Data payload in try_recv")
+    oks = {bi for bi, blk in enumerate(b.blocks) for st in blk["st"] if st["s"] == "assign" and st["rv"]["k"] == "agg" and st["rv"].get("variant") == "Ok" and (st["rv"].get("adt") or "").endswith("ws::Receive")}
+    waits = {c.bb for c in b.calls_to(r"future::select$|IntoFuture>?::into_future$")}
+    exits = {bi for bi, blk in enumerate(b.blocks) if blk["term"] and blk["term"]["t"] == "return"}
+    for bi, dl in binds:
+        ok = bi in oks or flow.all_paths_pass(b, bi, oks, waits | exits)
+        R.check(ok, "C01.R14", "try_recv:data-always-returned", "a received data message always leaves try_recv as Receive::Ok", "try_recv can drop a received data message and wait for the next one (a path from the Data arm reaches the next wait / another exit without building Receive::Ok): that message is never answered although every message - also an empty or non-JSON one - gets exactly one reply", "%s:%d" % (b.file, block_line(b, bi)))
+        holders = follow_value(b, dl)
+        looks = [c for c in b.calls if not c.exp and c.args and any(op_place(a) is not None and (op_place(a)["l"] in holders or (flow._local_copies_back(b, op_place(a)["l"], 4) & holders)) for a in c.args) and not re.search(r"^std::mem::drop$|drop_in_place", c.name() or "")]
+        R.check(not looks, "C01.R14", "try_recv:data-not-inspected", "try_recv does not look at the payload", "try_recv inspects the received payload (%s) before handing it on: which messages reach the RPC layer depends on their content" % sorted({short(c.name()) for c in looks}), where(looks[0]) if looks else None)
+        for o in oks:
+            for st in b.blocks[o]["st"]:
+                if st["s"] == "assign" and st["rv"]["k"] == "agg" and st["rv"].get("variant") == "Ok" and (st["rv"].get("adt") or "").endswith("ws::Receive"):
+                    lv = tr.origins(b, st["rv"]["ops"][0])
+                    R.check(any("Data" in " ".join(l.chain) for l in lv), "C01.R14", "try_recv:returns-the-payload", "Receive::Ok carries the received payload", "Receive::Ok does not carry the received payload", "%s:%d" % (b.file, st["sp"][0]))
+    # the unfold stream in background_task: Data -> Incoming::Data(buffer), on every path of that arm
+    st_b = [x for x in F.find(r"^jsonrpsee_server::transport::ws::background_task::\{closure#0\}::\{closure#\d+\}::\{closure#0\}$") if x.calls_to(r"soketto::(connection::)?Receiver::<.*>::receive$")]
+    if len(st_b) != 1:
+        raise AnchorLost("the receive stream of ws::background_task (found %d)" % len(st_b))
+    sb_ = st_b[0]
+    R.fn(sb_)
+    datas = [bi for bi, blk in enumerate(sb_.blocks) for st in blk["st"] if st["s"] == "assign" and st["rv"]["k"] == "agg" and st["rv"].get("variant") == "Data" and (st["rv"].get("adt") or "").endswith("ws::Incoming")]
+    R.check(len(datas) >= 1, "C01.R14", "stream:forwards-data", "the receive stream yields Incoming::Data for data frames", "the receive stream never builds Incoming::Data", "%s:%d" % (sb_.file, sb_.lo))
 
 
 def r13_subscription_kind_is_sent_by_its_creator(ctx):
@@ -676,7 +722,7 @@ def control_hand_driven(ctx):
 CONTROLS = [control_hand_driven]
 
 
-RULES = [r1_id_echo, r1b_handler_args, r2_classify_once, r3_ws_reply_once, r4_invocation_authority, r5_failure_classes, r6_transport_agreement, r7_whole_message, r8_classifiers_are_plain, r9_params_whitespace, r10_not_found_iff_unbound, r11_no_borrowed_wire_strings, r12_entry_points_agree, r13_subscription_kind_is_sent_by_its_creator] + BORROWED
+RULES = [r1_id_echo, r1b_handler_args, r2_classify_once, r3_ws_reply_once, r4_invocation_authority, r5_failure_classes, r6_transport_agreement, r7_whole_message, r8_classifiers_are_plain, r9_params_whitespace, r10_not_found_iff_unbound, r11_no_borrowed_wire_strings, r12_entry_points_agree, r13_subscription_kind_is_sent_by_its_creator, r14_every_data_message_reaches_the_task] + BORROWED
 
 LEVEL_TEXT = (
     "Structural necessary conditions of the request/reply contract decided from the type-checked program for every "
